@@ -725,6 +725,9 @@ class JavaFE:
             return v
         c = conc_signed(v)
         if c is None:
+            if z3.is_bv(v):
+                u = self.ctl.concretise(v)
+                return u - (1 << v.size()) if u >> (v.size() - 1) else u
             raise Unsupported('symbolic int where a concrete one is needed')
         return c
 
